@@ -216,6 +216,16 @@ def wrf (w : WStats) : Rat := (w.common.map absR).sum + w.tree1.sum + w.tree2.su
 def kf2 (w : WStats) : Rat :=
   (w.common.map fun d => d * d).sum + (w.tree1.map fun d => d * d).sum + (w.tree2.map fun d => d * d).sum
 
+/- ## what a rejected record carries besides `Err` -/
+
+/-- `Compare`, record of a tree rejected by the taxon check (fix e41ab42: the loop does not run):
+    `total - 0`, `0`, `0 - 0`, `false`.  A caller may only look at `Err`; this is a fidelity
+    observation (it tells the fixed code from the one that went on comparing). -/
+def errRecord (r : T) (tips : Bool) : Stats := ⟨(r.splits.countP (counted tips) : Nat), 0, 0, false⟩
+
+/-- `CompareWeighted`, likewise: no term, not identical -/
+def errRecordW : WStats := ⟨[], [], [], false⟩
+
 /- ## `gotree compare edges`, `gotree compare tips` (cmd/compareedges.go, cmd/comparetips.go) -/
 
 /-- one row of `compare edges` for a branch of the reference: terminal, topological depth
